@@ -441,6 +441,10 @@ func (w *world) applyInner(e simEvent) error {
 	case "SN":
 		t := TakeSnapshot(0)
 		w.track("snapshot", n, "", t, innerTask(t))
+		if n.r.snapTakenCh == nil {
+			// arguments the snapshot goroutine is started with (hidden state, part of the canonical form)
+			n.snapArgs = fmt.Sprintf("cfg%d/idx%d", n.r.configs.Committed.Index, n.r.snaps.index)
+		}
 		return n.stepLoop(func() error { return simSendTask(n.r, t) })
 	case "K":
 		return w.crash(n, "")
